@@ -1,4 +1,4 @@
-"""C12 - HashClient single-key and multi-key operations agree on where a key lives (single-key part).
+"""C12 - HashClient single-key and multi-key operations agree on where a key lives.
 
 Every single-key HashClient method (set get gat gats gets add replace append prepend cas delete incr decr touch) is
 executed symbolically with _run_cmd and _get_client inlined (hasher by its C11 contract, _safely_run_func by its C13
@@ -8,16 +8,144 @@ contract, _retry_dead by contract): on every path
   - the operation is performed on clients[that node] - the node is in rotation - with the stripped key as first argument.
 Hence all single-key operations use one and the same route(key); with C11 (placement is a function of key and node
 set) anything written by set is found by get/gets/delete/incr/touch on the same key.
+Multi-key (contracts/hashmany.py): _get_client is put under a contract of its own (validated routing key, one placement
+lookup, client of that node, stripped key; proved from its body) and get_many / gets_many / set_many are executed with two
+loop invariants over a ghost model of collections.defaultdict: after the routing loop there is a BIJECTION between the routed
+keys of the call and the batch positions - every key sits exactly once, stripped (with its value for set_many), in the batch
+of the server placement assigned to its routing key -, the batch servers are enumerated without repetition and each has its
+own client in the client table; the exchange loop makes at most one inner call per batch, on the client of that batch's own
+server, with exactly that batch and the caller's arguments, and merges one answer per batch. So each key is sent to
+route(key) exactly once and get_many is the union of the per-server answers (= the per-key gets, by C11 and the single-key
+part). Undecided multi-key VCs (quantified invariants give no counter-models) are decided by the bounded replay below.
 """
-from . import hashmodel as hm
+from . import hashmodel as hm, hashmany as hmany
 
-TRUSTED = ["C11 contract of RendezvousHash.get_node", "C13 contract of _safely_run_func", "HashClient.wf: the client table is keyed by node name (established by __init__/add_server with normalised specs)"]
+TRUSTED = ["C11 contract of RendezvousHash.get_node", "C13 contracts of _safely_run_func / _safely_run_set_many / _retry_dead", "A-defaultdict (ghost model of collections.defaultdict(list|dict): insertion-ordered, d[k] creates)", "HashClient.wf: the client table is keyed by node name (established by __init__/add_server with normalised specs)"]
 ASSUMPTIONS = ["servers were added through the constructor (normalised specs)", "no server fails during the call (that is C13)"]
-NOT_COVERED = ["set_many / get_many / gets_many / delete_many: group-by loop invariants over maps of sequences are not yet mechanised "
-               "(so 'get_many equals the per-key gets' and 'exactly once' are not claimed)"]
+NOT_COVERED = ["delete_many / touch_many (thin loops over the single-key path) are not separately mechanised",
+               "set_many: (server_key, key) pairs sharing one stripped key on one server (dict overwrite) are excluded by a stated assumption",
+               "the step from 'union of per-server answers' to 'equals the per-key gets' uses C11 (placement is a function) as a lemma, not re-proved here"]
 BUDGET = {"quick": 30, "thorough": 120}
 FILTER_BY_PROPERTY = True
+REPLAY_UNDECIDED = True
 
 
 def build(E, tier):
     hm.verify_hash_single(E)
+    hmany.verify_get_client(E, "C12")
+    hmany.verify_hash_many(E, prop="C12")
+
+
+REPLAY = r'''
+import itertools, random
+from pymemcache.client.hash import HashClient
+log = []
+class FakeClient:
+    """an in-memory memcached per server; records every call"""
+    def __init__(self, server, **kw): self.server = server; self.data = {}
+    def _k(self, key): return key if isinstance(key, bytes) else key.encode()
+    def set(self, key, value, *a, **kw): log.append((self.server, "set", key)); self.data[self._k(key)] = value; return True
+    def get(self, key, default=None, **kw): log.append((self.server, "get", key)); return self.data.get(self._k(key), default)
+    def gets(self, key, default=None, cas_default=None, **kw):
+        log.append((self.server, "gets", key)); return (self.data[self._k(key)], b"1") if self._k(key) in self.data else (default, cas_default)
+    def delete(self, key, *a, **kw): log.append((self.server, "delete", key)); return self.data.pop(self._k(key), None) is not None
+    def incr(self, key, value, *a, **kw): log.append((self.server, "incr", key)); return 1 if self._k(key) in self.data else None
+    def touch(self, key, *a, **kw): log.append((self.server, "touch", key)); return self._k(key) in self.data
+    def get_many(self, keys, *a, **kw):
+        keys = list(keys)
+        for k in keys: log.append((self.server, "get_many", k))
+        return {k: self.data[self._k(k)] for k in keys if self._k(k) in self.data}
+    def gets_many(self, keys, *a, **kw):
+        keys = list(keys)
+        for k in keys: log.append((self.server, "gets_many", k))
+        return {k: (self.data[self._k(k)], b"1") for k in keys if self._k(k) in self.data}
+    def set_many(self, values, *a, **kw):
+        for k, v in values.items(): log.append((self.server, "set_many", k)); self.data[self._k(k)] = v
+        return []
+    def close(self): pass
+rnd = random.Random(payload.get("seed", 0))
+bad = None; n = 0
+def fail(**kw):
+    global bad
+    if bad is None: bad = kw
+for nserv in (1, 2, 3, 5):
+    servers = [("10.0.0.%d" % i, 11211) for i in range(nserv)] if nserv != 3 else ["/tmp/a.sock", ("10.0.0.1", 1), ("10.0.0.2", 2)]
+    for prefix in (b"", b"p:"):
+      for pooling in (False, True):
+        for size in (0, 1, 2, 7, 50):
+            hc = HashClient([], key_prefix=prefix, use_pooling=pooling)
+            hc.client_class = FakeClient
+            import pymemcache.client.hash as hmod
+            saved_pc = getattr(hmod, "PooledClient", None)
+            hmod.PooledClient = FakeClient
+            try:
+                for sv in servers: hc.add_server(sv)
+            finally:
+                hmod.PooledClient = saved_pc
+            keys = []
+            for i in range(size):
+                kind = rnd.randrange(3)
+                keys.append("key%d" % i if kind == 0 else (b"bkey%d" % i if kind == 1 else ("route%d" % rnd.randrange(4), "pkey%d" % i)))
+            stripped = [k[1] if isinstance(k, tuple) else k for k in keys]
+            routekey = [k[0] if isinstance(k, tuple) else k for k in keys]
+            owner = {}
+            for k, rk, sk in zip(keys, routekey, stripped):
+                owner[sk] = hc.clients[hc.hasher.get_node(rk)].server
+            n += 1
+            # set_many -> every key written once, on its own server
+            del log[:]
+            failed = hc.set_many({k: ("v-%r" % (sk,)) for k, sk in zip(keys, stripped)})
+            sent = [(srv, k) for srv, op, k in log if op == "set_many"]
+            if failed or sorted(map(repr, sent)) != sorted(repr((owner[sk], sk)) for sk in stripped):
+                fail(op="set_many", servers=nserv, keys=repr(keys)[:200], sent=repr(sent)[:300], failed=repr(failed)); break
+            # single-key reads find what set_many wrote, on the same server
+            for k, sk in zip(keys, stripped):
+                del log[:]
+                got = hc.get(k)
+                if got != "v-%r" % (sk,) or [x[0] for x in log] != [owner[sk]]:
+                    fail(op="get after set_many", key=repr(k), got=repr(got), contacted=repr(log)); break
+                del log[:]
+                g2 = hc.gets(k)
+                if g2[0] != got or [x[0] for x in log] != [owner[sk]]:
+                    fail(op="gets after set_many", key=repr(k), got=repr(g2), contacted=repr(log)); break
+            if bad: break
+            # get_many == per-key gets; each key sent exactly once to its own server
+            for meth in ("get_many", "gets_many"):
+                del log[:]
+                many = getattr(hc, meth)(keys + ["absent"]) if size else getattr(hc, meth)(keys)
+                sent = [(srv, k) for srv, op, k in log if op == meth and k != "absent"]
+                want = {sk: ("v-%r" % (sk,)) if meth == "get_many" else ("v-%r" % (sk,), b"1") for sk in stripped}
+                if many != want or sorted(map(repr, sent)) != sorted(repr((owner[sk], sk)) for sk in stripped):
+                    fail(op=meth, servers=nserv, keys=repr(keys)[:200], sent=repr(sent)[:300], result=repr(many)[:200]); break
+            if bad: break
+            # set then delete / incr / touch go to the same server as set
+            for k, sk in list(zip(keys, stripped))[:5]:
+                for op, call in (("set", lambda: hc.set(k, "w")), ("incr", lambda: hc.incr(k, 1)), ("touch", lambda: hc.touch(k, 5)), ("delete", lambda: hc.delete(k))):
+                    del log[:]
+                    call()
+                    if [x[0] for x in log] != [owner[sk]] or log[0][2] != sk:
+                        fail(op=op, key=repr(k), contacted=repr(log), owner=repr(owner[sk])); break
+                if bad: break
+            if bad: break
+        if bad: break
+      if bad: break
+    if bad: break
+out(cases=n, failing=bad)
+'''
+_rc = {}
+
+
+def replay(ob, res):
+    """Bounded replay on the real HashClient (client_class seam: one in-memory fake server per node; 1..5 servers, TCP and
+    UNIX, prefixes, pooling on/off, key sets of size 0..50 with str / bytes / (server_key, key) pairs): per-server logs show
+    where every key went."""
+    from pyvc import replay as rp
+    if "r" not in _rc:
+        _rc["r"] = rp.run_real(REPLAY, {"seed": 0}, timeout=600)
+    obs = _rc["r"]
+    from pyvc.replay import failing_of
+    if failing_of(obs):
+        obs = dict(obs, failing=failing_of(obs))
+        return {"reproduced": True, "call": "HashClient over fake per-node servers: set_many / get / gets / get_many / gets_many / set / incr / touch / delete",
+                "input": obs["failing"], "cases_tried": obs.get("cases")}
+    return {"reproduced": False, "searched": obs}
